@@ -41,10 +41,47 @@ def classify(c, real, msg):
     return CLASSIFY(c, real, msg) if CLASSIFY else None
 
 
+def history_stream(ctx, count):
+    """the unedited map remapped AFTER an edited / tagged map of the same input, onto the same IndexedAssembly object in the same
+    process (state carried from one remap to the next must not matter): the result must be what a fresh run gives — and satisfy C08"""
+    import copy
+    rng = ctx.rng
+    for _ in range(count):
+        kind = rng.choice(["null", "null", "nullp"])
+        c = R.make_case(rng, kind)
+        # earlier map: the same whole-scaffold pieces, tagged (Haplotig / Contaminant / Target mode) and partly reversed, then a cut script
+        tagged = copy.deepcopy(c["ptx"])
+        for ps in tagged:
+            for f in ps["rows"]:
+                if f["t"] == "F":
+                    r = rng.random()
+                    if r < 0.4:
+                        f["tags"] = list(f["tags"]) + [rng.choice(["Haplotig", "Contaminant", "FalseDuplicate"])]
+                    elif r < 0.55 and "Painted" in f["tags"]:
+                        f["tags"] = list(f["tags"]) + ["X"]
+                    if rng.random() < 0.3:
+                        f["strand"] = -f["strand"]
+        script, _ = R.pretext_script(rng, c["input"], c["bpt"], cutp=0.7)
+        earlier = [tagged] + ([script] if rng.random() < 0.6 else [])
+        rng.shuffle(earlier)
+        fresh = R.real_remap(c["input"], c["ptx"], c["bpt"])
+        hist = R.real_remap_history(c["input"], earlier + [c["ptx"]], c["bpt"])
+        inp = {k: c[k] for k in ("input", "ptx", "bpt", "kind")}
+        inp["earlier_maps_on_the_same_IndexedAssembly"] = earlier
+        ctx.out.case("object-history", inp, ("history", kind, len(earlier), "err" in hist))
+        if PROJ(hist) != PROJ(fresh):
+            ctx.out.oracle_fail("object-history", inp, "remapping the unedited map after other maps on the same IndexedAssembly object gives another result than a fresh run")
+            continue
+        for msg in oracle(c, hist):
+            ctx.out.oracle_fail("object-history", inp, msg, finding=classify(c, hist, msg))
+            break
+
+
 def run(ctx):
     for stream, kind, n in streams(ctx):
         cases = [gen(ctx, kind) for _ in range(n)]
         R.run_cases(ctx, stream, cases, PROJ, oracle, classify)
+    history_stream(ctx, 240 if ctx.thorough else 40)
 
 
 def search(ctx, broken):
